@@ -99,6 +99,15 @@ def step (s : Sem) : SemOp → Sem × List Ev
     let r := s.setCur (freeUsedCur s free used)
     (r.1, r.2 ++ [.ret (free + used - s.max)])
 
+/-- The current size an availability update asks the semaphore to apply
+(`none` for the other calls): what `UpdateSize`/`UpdateActual`/`UpdateFreeUsed`
+compute from their arguments before `oldSize < curSize` is looked at. -/
+def observedSize (s : Sem) : SemOp → Option Int
+  | .updSize n => some n
+  | .updActual n => some (if n + s.reserved > s.max then s.max else n + s.reserved)
+  | .updFreeUsed free used => some (freeUsedCur s free used)
+  | _ => none
+
 /-- Run an op sequence, collecting every event in order. -/
 def run : Sem → List SemOp → Sem × List Ev
   | s, [] => (s, [])
